@@ -624,7 +624,10 @@ PLANS["C12"] = dict(
                "TLC checks the consistency clauses on it; every cell is executed and validated. Bytes (sampled): every real call runs under "
                "recover(); a seeded mutational driver feeds mutated envelopes to all four levels, mutated JSON to the policy / signing-key / "
                "config loaders, mutated cache files, hostile manifests and lying descriptors to the registry client, with an allocation watchdog; "
-               "the trace spec judges only the universal clauses there (normal return, bounded allocation, consistent outcome).",
+               "the trace spec judges only the universal clauses there (normal return, bounded allocation, consistent outcome). Plugin output and "
+               "key-list files: the reply table of PluginProc.tla (every command x exit code x stdout x stderr kind, executed with generated "
+               "plugins; returned errors must also be printable) and the operation histories of SigningKeys.tla are replayed with only the "
+               "normal-return rule judged.",
     level_note="Trusted: TLC, the Go runtime's recover/MemStats. The byte-level universals are sampled, not exhaustive; plugin output and plugin "
                "answers are covered by the C17/C18 drivers, which also run under recover().",
     rule="matrix: all cells of MC_EntryPoints_C12; bytes: seeded mutations of valid inputs (counted per call); non-trivial = expected failure, "
@@ -635,6 +638,18 @@ PLANS["C12"] = dict(
              drive=dict(driver="entrypoints"), validate=dict(module="Trace_EntryPoints", cfg=trace_cfg(consts=['Mode = "matrix"']))),
         dict(name="bytes", static_cases=c12_bytes, drive=dict(driver="fuzz-bytes"),
              validate=dict(module="Trace_EntryPoints", cfg=trace_cfg(consts=['Mode = "bytes"']), recheck=False)),
+        # normal return for every plugin reply (the reply table of PluginProc.tla, rows without waiting) and for every history of
+        # operations on the signing-key list (SigningKeys.tla): only the no-panic rule of those trace specs is judged here
+        dict(name="plugin-replies",
+             gen=dict(module="MC_PluginProc_C17", cfg=lambda tier, seed: c17_cfg(tier, seed), select=lambda cases, tier, seed: [c for c in cases if c["in"]["timing"] == "immediate"]),
+             drive=dict(driver="pluginproc"),
+             validate=dict(module="Trace_PluginProc", only_rules=["no-panic"],
+                           cfg=cfg_lines("SPECIFICATION Spec", 'CONSTANT TraceFile = "trace.ndjson"', "CONSTANT Cap = 2", "CONSTANT Deadline = 2",
+                                         "CONSTANT WaitDelay = 1", "CONSTANT HoldFor = 6", "CONSTANT Bound = 3", "POSTCONDITION AllConsumed", "CHECK_DEADLOCK FALSE"))),
+        dict(name="signingkeys",
+             gen=dict(module="MC_SigningKeys", cfg=lambda tier, seed: mc_cfg(["Inv_Valid", "Inv_NoEffect", "Inv_Emit"], consts=["Depth = 3"]), select=slicer(20000)),
+             drive=dict(driver="signingkeys"),
+             validate=dict(module="Trace_SigningKeys", cfg=trace_cfg(), only_rules=["no-panic"])),
     ],
 )
 
